@@ -209,6 +209,9 @@ class Body:
             for b in range(self.n):
                 for i, s in enumerate(self.blocks[b]["st"]):
                     if s["s"] == "assign":
+                        pr = pl_proj(s["p"])
+                        if pr and pr[0] == "*":
+                            continue     # a write through a pointer is not a definition of the pointer local
                         d.setdefault(pl_local(s["p"]), []).append(("st", b, i, s))
                 t = self.blocks[b]["term"]
                 if t["t"] == "call":
